@@ -17,6 +17,7 @@ import (
 func init() { register("C03", checkC03) }
 
 var paramBinderRules = []emitRule{
+	fileRewindRule,
 	{Name: "missing key of a required parameter is rejected", Trees: []string{"serverParameter"}, Rx: `if !hasKey \{\s*return errors\.Required\(`, Need: []guardAtom{{"Required", +1}}, Min: 2,
 		Why: "a required query/header/form parameter that is absent must be answered with an error; an optional one must not"},
 	{Name: "empty value of a required parameter is rejected", Trees: []string{"serverParameter"}, Rx: `validate\.RequiredString\(`, Need: []guardAtom{{"Required", +1}, {"AllowEmptyValue", -1}, {"IsPathParam", -1}}, Min: 1,
